@@ -104,3 +104,22 @@ SPECS += [
     Spec(GROUP, "decide_whole2", "toy.py", "decide_whole", [("data", BYTES), ("flag", BOOL)], expr="len(data) == 1 or flag",
          whole=True, ret=BOOL),
 ]
+from translate_fn import NONE
+SPECS += [
+    Spec(GROUP, "fmt_format", "toy.py", "Fmt.format", [("version", INT), ("wipe", BOOL), ("data", BYTES)],
+         binds=[("self._ndef", "ndef", OPT(INT))], stores=["self._ndef"], stmts=(0, 5), result=["status", "self._ndef"],
+         opaque={"self._format": ("fmt", [INT, BOOL], OPT(BOOL), True), "self._write": ("wr", [NONE, BYTES], INT, True)}),
+    Spec(GROUP, "fmt_tail", "toy.py", "Fmt.format", [("version", INT), ("data", BYTES), ("status", OPT(BOOL))],
+         stmts=(5, 7), opaque={"self._ok": ("okf", [INT], BOOL, False)}),
+]
+SPECS += [
+    Spec(GROUP, "over_protect", "toy.py", "Over.protect", [("password", OPT(BYTES)), ("read_protect", BOOL), ("protect_from", INT)],
+         stmts=(0, 2), opaque={"super(Over, self).protect": ("sup", [OPT(BYTES), BOOL, INT], OPT(BOOL), True)}),
+    Spec(GROUP, "over_ndef", "toy.py", "Over.ndef", [], stmts=(0, 3), binds=[("nd.has_changed", "changed", BOOL)],
+         opaque={"self.NDEF": ("mk", [NONE], INT, False), "self._mk": ("mk2", [OPT(INT), OPT(BYTES)], INT, True)}),
+]
+SPECS += [
+    Spec(GROUP, "stubs_run", "toy.py", "Stubs.run", [("x", INT)],
+         opaque={"self._rd": ("rd", [INT], OPT(BYTES), True), "self._act": ("act", [INT, OPT(BYTES)], OPT(INT), False),
+                 "self._poll": ("poll", [INT], TUP(BYTES, BYTES), True)}),
+]
